@@ -293,16 +293,25 @@ def wmiCell (X : Arr) (w : Nat → Rat) (f g : Nat) (u v : Int) : Option Term :=
   let pm := (wsum X.T w fun t => X.get t g = v) * (wsum X.T w fun t => X.get t f = u)
   if pm = 0 ∨ pj = 0 then none else some (pj, pj / pm)
 
+/-- the terms of `mi_mtx[f, g]`: all state pairs `(u, v)` with `u, v < M`, in `itertools.product` order -/
+def wmiTerms (X : Arr) (w : Nat → Rat) (M : Nat) (f g : Nat) : List Term :=
+  (List.range M).flatMap fun (u : Nat) => (List.range M).filterMap fun (v : Nat) =>
+    wmiCell X w f g (u : Int) (v : Int)
+
+/-- `if weights.sum() != 1: weights = weights / np.linalg.norm(weights, ord=1)` (weights are ≥ 0) -/
+def normWeights (wl : List Rat) : Nat → Rat :=
+  let s := ratSum wl
+  fun t => if s = 1 then wl.getD t 0 else wl.getD t 0 / s
+
 structure WMI where
   terms : List (List (List Term))
   states : List Int
 
-def weightedMi (X : Arr) (wl : List Rat) (nfs : Option (List Int)) : Except Err WMI := do
+/-- the validation stage of `weighted_mi`: returns the state counts and their maximum -/
+def wmiValidate (X : Arr) (wl : List Rat) (nfs : Option (List Int)) : Except Err (List Int × Int) := do
   if wl.any (· < 0) then throw .assertion
   if ratSum wl = 0 then throw .assertion
   if wl.length ≠ X.T then throw .dataInvalid
-  let s := ratSum wl
-  let w : Nat → Rat := fun t => if s = 1 then wl.getD t 0 else wl.getD t 0 / s
   let nfs ← match nfs with
     | some l => pure l
     | none => match X.max? with
@@ -318,9 +327,11 @@ def weightedMi (X : Arr) (wl : List Rat) (nfs : Option (List Int)) : Except Err 
     let lens := (List.range X.F).map fun f =>
       ((List.range X.T).map fun t => X.get t f + 1).foldl max M
     if lens.any (· ≠ lens.headD M) then throw .valueError
-    pure { states := nfs,
-           terms := tabulate X.F fun f => tabulate X.F fun g =>
-            (List.range M.toNat).flatMap fun (u : Nat) => (List.range M.toNat).filterMap fun (v : Nat) =>
-              wmiCell X w f g (u : Int) (v : Int) }
+    pure (nfs, M)
+
+def weightedMi (X : Arr) (wl : List Rat) (nfs : Option (List Int)) : Except Err WMI := do
+  let v ← wmiValidate X wl nfs
+  pure { states := v.1,
+         terms := tabulate X.F fun f => tabulate X.F fun g => wmiTerms X (normWeights wl) v.2.toNat f g }
 
 end Ens.Info
